@@ -221,3 +221,11 @@ Definition duration_bound (tbl : list (text * score)) (o : op) : Q :=
 
 (* ---- calls that emit no code at all: beep with trunc(times) < 1, melody without (or with an empty) score *)
 Definition noop_call (tbl : list (text * score)) (o : op) : bool := timed o && negb (silent_guard tbl o).
+
+(* the same guard for whole call sequences: a beep without argument needs no condition of its own, because
+   the last frequency stays outside (0, 1/2) when default_frequency and every other argument are *)
+Definition half_guard_static (tbl : list (text * score)) (o : op) : bool :=
+  match o with
+  | Beep None _ _ _ => true
+  | _ => half_guard tbl q0 o
+  end.
